@@ -130,8 +130,12 @@ func (r *requestContext) rewriteRequest(targetURL *url.URL) func(req *httputil.P
 		proxyReq.Out.Header.Del("X-Forwarded-Path")
 
 		uh := r.UpstreamHeaders()
-		for k := range uh {
-			proxyReq.Out.Header.Set(k, uh.Get(k))
+		for k, values := range uh {
+			proxyReq.Out.Header.Del(k)
+
+			for _, value := range values {
+				proxyReq.Out.Header.Add(k, value)
+			}
 		}
 
 		if host := uh.Get("Host"); len(host) != 0 {
